@@ -43,6 +43,8 @@ def check(ck):
     r08_7(ck)
     r08_8(ck)
     c06.r06_7(ck, rule='R08.9')
+    from . import c15
+    c15.r15_9(ck, rule='R08.10')
 
 
 def registrations(ck, registry):
